@@ -165,9 +165,16 @@ package core
 //@     decreases n - i
 
 // Encoders (C06): each per-slot group becomes one fragment whose request bytes are the canonical RESP encoding
-// of the command name followed by exactly the keys of the group, in group order.
+// of the command name followed by exactly the keys of the group, in group order. The spec string is associated the
+// way the code builds it (lenc / benc in spec/smt/groups.smt2), with a cut point at every append.
 //@ define bytes_of(b, s) = holds(b, s)
-//@ define mgetreq(keys, j) = s_cat("*", s_cat(itoa(len(keys) + 1), s_cat("\r\n$4\r\nmget\r\n", kenc(keys, j))))
+//@ define mgetreq(keys, j) = lenc(keys, j, s_cat(s_cat("*", itoa(len(keys) + 1)), "\r\n$4\r\nmget\r\n"), "$", "\r\n")
+//@ define delreq(keys, j) = lenc(keys, j, s_cat(s_cat("*", itoa(len(keys) + 1)), "\r\n$3\r\ndel\r\n"), "$", "\r\n")
+//@ define msetreq(keys, j) = lenc2(keys, j, s_cat(s_cat("*", itoa(len(keys) * 2 + 1)), "\r\n$4\r\nmset\r\n"), "$", "\r\n")
+//@ define munf(keys, j) = lenc_unfold(keys, j, s_cat(s_cat("*", itoa(len(keys) + 1)), "\r\n$4\r\nmget\r\n"), "$", "\r\n")
+//@ define dunf(keys, j) = lenc_unfold(keys, j, s_cat(s_cat("*", itoa(len(keys) + 1)), "\r\n$3\r\ndel\r\n"), "$", "\r\n")
+//@ define sunf(keys, j) = lenc2_unfold(keys, j, s_cat(s_cat("*", itoa(len(keys) * 2 + 1)), "\r\n$4\r\nmset\r\n"), "$", "\r\n")
+//@ define pairpre(m, ks, t) = ite(t <= 0, m, ite(t == 1, benc(m, ks[0], "$", "\r\n"), benc(benc(m, ks[0], "$", "\r\n"), ks[1], "$", "\r\n")))
 
 //@ func CRespCodec.MGet
 //@   props C06 C12
@@ -179,9 +186,9 @@ package core
 //@   assert at call append#1 :: bytes_of(frag.Req, "*")
 //@   assert at call append#2 :: bytes_of(frag.Req, s_cat("*", itoa(len(keys) + 1)))
 //@   assert at call append#4 :: bytes_of(frag.Req, s_cat(mgetreq(keys, rangeindex), "$"))
-//@   assert at call append#5 :: bytes_of(frag.Req, s_cat(mgetreq(keys, rangeindex), s_cat("$", itoa(len(k)))))
-//@   assert at call append#6 :: bytes_of(frag.Req, s_cat(mgetreq(keys, rangeindex), s_cat("$", s_cat(itoa(len(k)), "\r\n"))))
-//@   assert at call append#7 :: bytes_of(frag.Req, s_cat(mgetreq(keys, rangeindex), s_cat("$", s_cat(itoa(len(k)), s_cat("\r\n", k)))))
+//@   assert at call append#5 :: bytes_of(frag.Req, s_cat(s_cat(mgetreq(keys, rangeindex), "$"), itoa(len(k))))
+//@   assert at call append#6 :: bytes_of(frag.Req, s_cat(s_cat(s_cat(mgetreq(keys, rangeindex), "$"), itoa(len(k))), "\r\n"))
+//@   assert at call append#7 :: bytes_of(frag.Req, s_cat(s_cat(s_cat(s_cat(mgetreq(keys, rangeindex), "$"), itoa(len(k))), "\r\n"), k))
 //@   loop 0
 //@     modifies mapof(resp.Body), fragId
 //@     invariant resp != nil && resp.Body != nil
@@ -190,9 +197,7 @@ package core
 //@   loop 1
 //@     modifies frag.Req, capmem(frag.Req)
 //@     invariant 0 <= rangeindex + 1 && rangeindex + 1 <= len(keys) && frag != nil && sameback(frag.Req)
-//@     invariant kenc_unfold(keys, rangeindex + 1) && kenc_unfold(keys, rangeindex + 2) && bytes_of(frag.Req, mgetreq(keys, rangeindex + 1))
-
-//@ define delreq(keys, j) = s_cat("*", s_cat(itoa(len(keys) + 1), s_cat("\r\n$3\r\ndel\r\n", kenc(keys, j))))
+//@     invariant munf(keys, rangeindex + 1) && munf(keys, rangeindex + 2) && bytes_of(frag.Req, mgetreq(keys, rangeindex + 1))
 
 //@ func CRespCodec.Del
 //@   props C06 C12
@@ -204,9 +209,9 @@ package core
 //@   assert at call append#1 :: bytes_of(frag.Req, "*")
 //@   assert at call append#2 :: bytes_of(frag.Req, s_cat("*", itoa(len(keys) + 1)))
 //@   assert at call append#4 :: bytes_of(frag.Req, s_cat(delreq(keys, rangeindex), "$"))
-//@   assert at call append#5 :: bytes_of(frag.Req, s_cat(delreq(keys, rangeindex), s_cat("$", itoa(len(k)))))
-//@   assert at call append#6 :: bytes_of(frag.Req, s_cat(delreq(keys, rangeindex), s_cat("$", s_cat(itoa(len(k)), "\r\n"))))
-//@   assert at call append#7 :: bytes_of(frag.Req, s_cat(delreq(keys, rangeindex), s_cat("$", s_cat(itoa(len(k)), s_cat("\r\n", k)))))
+//@   assert at call append#5 :: bytes_of(frag.Req, s_cat(s_cat(delreq(keys, rangeindex), "$"), itoa(len(k))))
+//@   assert at call append#6 :: bytes_of(frag.Req, s_cat(s_cat(s_cat(delreq(keys, rangeindex), "$"), itoa(len(k))), "\r\n"))
+//@   assert at call append#7 :: bytes_of(frag.Req, s_cat(s_cat(s_cat(s_cat(delreq(keys, rangeindex), "$"), itoa(len(k))), "\r\n"), k))
 //@   loop 0
 //@     modifies mapof(resp.Body), fragId
 //@     invariant resp != nil && resp.Body != nil
@@ -215,10 +220,7 @@ package core
 //@   loop 1
 //@     modifies frag.Req, capmem(frag.Req)
 //@     invariant 0 <= rangeindex + 1 && rangeindex + 1 <= len(keys) && frag != nil && sameback(frag.Req)
-//@     invariant kenc_unfold(keys, rangeindex + 1) && kenc_unfold(keys, rangeindex + 2) && bytes_of(frag.Req, delreq(keys, rangeindex + 1))
-
-//@ define msetreq(keys, j) = s_cat("*", s_cat(itoa(len(keys) * 2 + 1), s_cat("\r\n$4\r\nmset\r\n", penc(keys, j))))
-//@ define pairpre(ks, t) = ite(t <= 0, "", ite(t == 1, bulkstr(ks[0]), s_cat(bulkstr(ks[0]), bulkstr(ks[1]))))
+//@     invariant dunf(keys, rangeindex + 1) && dunf(keys, rangeindex + 2) && bytes_of(frag.Req, delreq(keys, rangeindex + 1))
 
 //@ func CRespCodec.MSet
 //@   props C06 C12
@@ -229,10 +231,10 @@ package core
 //@   ensures[encoding@C06] forall s int32 :: has(resp.Frags2, s) ==> bytes_of(resp.Body[s].Req, msetreq(resp.Frags2[s], len(resp.Frags2[s])))
 //@   assert at call append#1 :: bytes_of(frag.Req, "*")
 //@   assert at call append#2 :: bytes_of(frag.Req, s_cat("*", itoa(len(keys) * 2 + 1)))
-//@   assert at call append#4 :: bytes_of(frag.Req, s_cat(msetreq(keys, rangeindex#0), s_cat(pairpre(ks, rangeindex#1), "$")))
-//@   assert at call append#5 :: bytes_of(frag.Req, s_cat(msetreq(keys, rangeindex#0), s_cat(pairpre(ks, rangeindex#1), s_cat("$", itoa(len(k))))))
-//@   assert at call append#6 :: bytes_of(frag.Req, s_cat(msetreq(keys, rangeindex#0), s_cat(pairpre(ks, rangeindex#1), s_cat("$", s_cat(itoa(len(k)), "\r\n")))))
-//@   assert at call append#7 :: bytes_of(frag.Req, s_cat(msetreq(keys, rangeindex#0), s_cat(pairpre(ks, rangeindex#1), s_cat("$", s_cat(itoa(len(k)), s_cat("\r\n", k))))))
+//@   assert at call append#4 :: bytes_of(frag.Req, s_cat(pairpre(msetreq(keys, rangeindex#0), ks, rangeindex#1), "$"))
+//@   assert at call append#5 :: bytes_of(frag.Req, s_cat(s_cat(pairpre(msetreq(keys, rangeindex#0), ks, rangeindex#1), "$"), itoa(len(k))))
+//@   assert at call append#6 :: bytes_of(frag.Req, s_cat(s_cat(s_cat(pairpre(msetreq(keys, rangeindex#0), ks, rangeindex#1), "$"), itoa(len(k))), "\r\n"))
+//@   assert at call append#7 :: bytes_of(frag.Req, s_cat(s_cat(s_cat(s_cat(pairpre(msetreq(keys, rangeindex#0), ks, rangeindex#1), "$"), itoa(len(k))), "\r\n"), k))
 //@   loop 0
 //@     modifies mapof(resp.Body), fragId
 //@     invariant resp != nil && resp.Body != nil
@@ -241,12 +243,14 @@ package core
 //@   loop 1
 //@     modifies frag.Req, capmem(frag.Req)
 //@     invariant 0 <= rangeindex + 1 && rangeindex + 1 <= len(keys) && frag != nil && sameback(frag.Req)
-//@     invariant penc_unfold(keys, rangeindex + 1) && penc_unfold(keys, rangeindex + 2) && bytes_of(frag.Req, msetreq(keys, rangeindex + 1))
+//@     invariant sunf(keys, rangeindex + 1) && sunf(keys, rangeindex + 2) && bytes_of(frag.Req, msetreq(keys, rangeindex + 1))
 //@   loop 2
 //@     modifies frag.Req, capmem(frag.Req)
 //@     invariant 0 <= rangeindex#1 + 1 && rangeindex#1 + 1 <= 2 && frag != nil && sameback(frag.Req)
-//@     invariant 0 <= rangeindex#0 && rangeindex#0 < len(keys) && ks == keys[rangeindex#0] && penc_unfold(keys, rangeindex#0 + 1)
-//@     invariant bytes_of(frag.Req, s_cat(msetreq(keys, rangeindex#0), pairpre(ks, rangeindex#1 + 1)))
+//@     invariant 0 <= rangeindex#0 && rangeindex#0 < len(keys) && ks == keys[rangeindex#0] && sunf(keys, rangeindex#0 + 1)
+//@     invariant rangeindex#1 + 1 == 0 ==> bytes_of(frag.Req, msetreq(keys, rangeindex#0))
+//@     invariant rangeindex#1 + 1 == 1 ==> bytes_of(frag.Req, benc(msetreq(keys, rangeindex#0), ks[0], "$", "\r\n"))
+//@     invariant rangeindex#1 + 1 == 2 ==> bytes_of(frag.Req, benc(benc(msetreq(keys, rangeindex#0), ks[0], "$", "\r\n"), ks[1], "$", "\r\n"))
 
 //@ define sameback(x) = (x.base == pre(x.base) && x.off == pre(x.off) && cap(x) == pre(cap(x))) || newinloop(x)
 
